@@ -78,8 +78,13 @@ func Loop(r lineReader, p Parser, vm *vm.Type, doOut bool) {
 			sep = ""
 		}
 
-		if open.blocks == 0 && !open.inString && open.brackets == 0 {
+		// a closing brace or bracket without its opener can never be completed by
+		// later lines: hand the input to the parser now, which reports the error
+		unbalanced := !open.inString && (open.blocks < 0 || open.brackets < 0)
+
+		if unbalanced || (open.blocks == 0 && !open.inString && open.brackets == 0) {
 			processInput(input, p, vm, doOut)
+			open = openCounts{}
 			sep = ""
 			input = ""
 		}
